@@ -41,6 +41,19 @@ func classifyErr(c *Ctx, v ssa.Value) (string, string) {
 			return "stream", errCodeNames[c.Expr(x.Call.Args[1])]
 		}
 	case *ssa.UnOp:
+		if al, ok := x.X.(*ssa.Alloc); ok && uniqueStore(al) == nil {
+			f := complitFields(al)
+			switch typeName(deref(al.Type())) {
+			case "http2.connError":
+				if f["Code"] != nil {
+					return "conn", errCodeNames[c.Expr(f["Code"])]
+				}
+			case "http2.StreamError":
+				if f["Code"] != nil {
+					return "stream", errCodeNames[c.Expr(f["Code"])]
+				}
+			}
+		}
 		// load of a local StreamError struct built by streamError(...)
 		e := c.Expr(x)
 		if strings.HasPrefix(e, "http2.streamError(") {
